@@ -43,6 +43,21 @@ class _MethodFilt:
         return _filt_value(self.w, self.fid, e, v2)
 
 
+class _UnhashableFilt:
+    """a callable OBJECT with value equality and therefore no hash (what `@dataclass` gives a callable class): legal as a
+    filter; it cannot be a memo key, so with caching on the answer must simply be computed"""
+    __hash__ = None
+
+    def __init__(self, w, fid):
+        self.w, self.fid = w, fid
+
+    def __eq__(self, other):
+        return isinstance(other, _UnhashableFilt) and other.fid == self.fid
+
+    def __call__(self, e, v2):
+        return _filt_value(self.w, self.fid, e, v2)
+
+
 def _filt_value(w, fid, e, v2):
     l = w.id_of(e)
     o = w.id_of(v2)
@@ -59,7 +74,9 @@ def _filt_value(w, fid, e, v2):
 
 def _std_filt(w, fid):
     """Distinct filters that are siblings in every way but identity: ids 0-2 are functions sharing ONE code object (their
-    state is captured as default arguments, so there is no closure), the others are bound methods of one class."""
+    state is captured as default arguments, so there is no closure), id 3 is a bound method, id 4 an unhashable callable object."""
+    if fid == 4:
+        return _UnhashableFilt(w, fid)
     if fid > 2:
         return _MethodFilt(w, fid).accept
 
